@@ -126,4 +126,65 @@ theorem MOV_W_LD_POSTINC (op : BitVec 16) (st st' : Cpu) (c : BitVec 8) (i : Spe
     simp only [nib, rdW, wrW, getEr, setEr, shOf, Spec.nzClearV, Spec.setFlag, changeCcrV, Spec.z4, Spec.zx16, Spec.lo3]
     bv_decide)
 
+/-- a word store that succeeded, neither byte a special-function register: exactly the Spec's `storeBE` of two bytes -/
+theorem writeAbs24W_poke (x : BitVec 32) (v : BitVec 16) (s s' : Cpu)
+    (h : writeAbs24W (x &&& ADDRESS_MASK) v s = .ok () s')
+    (f0 : Spec.isSfr (x &&& ADDRESS_MASK).toNat = false)
+    (f1 : Spec.isSfr ((x &&& ADDRESS_MASK) + 1).toNat = false) :
+    s' = { s with bus := Spec.storeBE s.bus (x.setWidth 24) 2 (v.setWidth 32) } := by
+  simp only [writeAbs24W, bind_ok] at h
+  split at h
+  case h_2 => simp at h
+  case h_3 => simp at h
+  rename_i u0 t0 hw0
+  have e0 := busWrite_poke _ _ _ _ hw0 f0
+  subst e0
+  have m1 := busWrite_mapped _ _ _ _ h
+  have e1 := busWrite_poke _ _ _ _ h f1
+  subst e1
+  rw [storeBE_two, ← addr_toNat, ← addr1_toNat _ m1]
+  have b0 : BitVec.setWidth 8 (BitVec.setWidth 32 v >>> 8) = BitVec.setWidth 8 (v >>> 8) := by bv_decide
+  have b1 : BitVec.setWidth 8 (BitVec.setWidth 32 v) = BitVec.setWidth 8 v := by bv_decide
+  simp only [b0, b1]
+
+/-- MOV.W Rs,@-ERd (PUSH.W Rs for d = 7) with neither byte a special-function register -/
+theorem MOV_W_ST_PREDEC (op : BitVec 16) (st st' : Cpu) (c : BitVec 8) (i : Spec.Instr)
+    (hp : Spec.Form.pat .MOV_W_ST_PREDEC op 0 0 0 0 = true)
+    (hi : Spec.instrOf .MOV_W_ST_PREDEC op 0 0 0 0 = some i) (h : movIncOrDec .W op st = .ok c st')
+    (f0 : Spec.isSfr ((getEr st.regs (nib op 3 &&& 7) - 2) &&& ADDRESS_MASK).toNat = false)
+    (f1 : Spec.isSfr (((getEr st.regs (nib op 3 &&& 7) - 2) &&& ADDRESS_MASK) + 1).toNat = false) :
+    st' = { st with regs := (specRegCcrBus i st).1, ccr := (specRegCcrBus i st).2.1, bus := (specRegCcrBus i st).2.2 } := by
+  rw [Spec.instrOf_MOV_W_ST_PREDEC] at hi; simp only [Option.some.injEq] at hi; subst hi
+  rw [Spec.pat_MOV_W_ST_PREDEC] at hp; simp only [Bool.and_eq_true, beq_iff_eq] at hp
+  have hdir : (op &&& 0x0080 == 0) = false := by bv_decide
+  have h3 : (nib op 3 &&& 7).ule 7#8 = true := by (simp only [nib]; bv_decide)
+  simp only [movIncOrDec, hdir, Bool.false_eq_true, if_false, writeDecErn, writeMem, readRn, bind_ok, pure_ok,
+    readRnL_ok _ _ h3, readRnW_nib, Sz.bytes] at h
+  split at h
+  case h_2 => simp at h
+  case h_3 => simp at h
+  rename_i u s1 hw
+  split at hw
+  case h_2 => simp at hw
+  case h_3 => simp at hw
+  rename_i u0 s0 hw0
+  have ew := writeAbs24W_poke _ _ _ _ hw0 f0 f1
+  subst ew
+  simp only [writeRnL_ok _ _ _ h3, Res.ok.injEq, true_and] at hw
+  subst hw
+  simp only [movPccSz, movPcc, bind_ok, pure_ok, changeCcr_ok, writeCcr_zero, iBase, Sz.dataKind, Sz.dataCount] at h
+  movcost3_subst
+  simp only [specRegCcrBus, Spec.exec, Spec.getReg, Spec.setReg, Spec.movFlags, Spec.eaOf, Spec.eaRegs, getR16_eq, setR16_eq,
+    getER_eq, setER_eq, Spec.Sz.bytes]
+  have hidx : (BitVec.setWidth 8 (BitVec.setWidth 3 (BitVec.extractLsb' 4 3 op))) = nib op 3 &&& 7 := by
+    simp only [nib]; bv_decide
+  have hd : nib op 4 = ((op.extractLsb' 0 4).setWidth 4).setWidth 8 := by simp only [nib]; bv_decide
+  have htwo : (BitVec.ofNat 32 2) = 2#32 := rfl
+  rw [hidx, ← hd, htwo]
+  generalize st.regs = r; generalize st.ccr = cc; generalize st.bus = bus
+  generalize rdW r (nib op 4) = w
+  have e : BitVec.setWidth 32 (BitVec.setWidth 16 (BitVec.setWidth 32 w)) = BitVec.setWidth 32 w := by bv_decide
+  rw [e]
+  congr 1
+
 end H8.Props.C01P
